@@ -95,6 +95,8 @@ enum Instr {
     Literal(Vec<usize>, Vec<Float>),
     /// `*gradient_mut() = None`
     GradMutNone(usize),
+    /// white-box probe of the bookkeeping cells behind a handle (hook `Array::verif_probe`); its slot stays empty
+    Probe(usize),
 }
 
 struct Toks<'a> {
@@ -250,6 +252,7 @@ fn parse_instr(line: &str) -> Instr {
         "mbackward" => Instr::ModelBackward(t.u()),
         "mupdate" => Instr::ModelUpdate,
         "params" => Instr::Params,
+        "probe" => Instr::Probe(t.u()),
         other => panic!("unknown instruction {}", other),
     }
 }
@@ -596,6 +599,31 @@ fn exec(
         }
         Instr::ModelUpdate => {
             model.as_mut().expect("model").update();
+        }
+        Instr::Probe(h) => {
+            #[cfg(corgi_verif)]
+            {
+                let (t, k, count, has_delta, has_grad, strong, kids) = var(vars, *h).verif_probe();
+                let mut ns = vec![
+                    t as usize,
+                    k as usize,
+                    count,
+                    has_delta as usize,
+                    has_grad as usize,
+                    strong,
+                    kids.len(),
+                ];
+                for (ct, ck) in kids {
+                    ns.push(ct as usize);
+                    ns.push(ck as usize);
+                }
+                item(11, &ns, &[], out);
+            }
+            #[cfg(not(corgi_verif))]
+            {
+                let _ = var(vars, *h);
+                out.push_str(" | nohook");
+            }
         }
         Instr::Params => {
             #[cfg(corgi_verif)]
